@@ -495,7 +495,18 @@ func parentMain() int {
 					if prop.SlowCase > per {
 						per = prop.SlowCase
 					}
-					wr := spawn(propID, tier, base, s, n, nil, perRun+time.Duration(n)*per)
+					var wr workerRun
+					if alt := os.Getenv("VERIF_WORKER_ALT"); alt != "" && prop.AltEvery > 0 && (j.start/chunk)%prop.AltEvery == prop.AltEvery-1 {
+						wr = spawnBin(alt, propID, tier, base, s, n, nil, perRun+time.Duration(n)*per)
+						for _, x := range wr.results {
+							x.Alt = true
+						}
+						if wr.died != nil {
+							wr.died.Alt = true
+						}
+					} else {
+						wr = spawn(propID, tier, base, s, n, nil, perRun+time.Duration(n)*per)
+					}
 					if prop.OnStderr != nil {
 						prop.OnStderr(wr.stderr, wr.results, func(k string) { a.mu.Lock(); a.probes[k]++; a.mu.Unlock() })
 					}
@@ -687,7 +698,14 @@ func runChoices(prop *Prop, tier string, rf *replayFile, trace bool) *Result {
 	}
 	var r *Result
 	for i := 0; i < n; i++ {
+		if prop.OnStderr != nil && i%2 == 1 {
+			// what a sync.Pool hands to whom depends on which processor a goroutine
+			// runs on: on one processor every goroutine of the run shares the pool's
+			// local slot, as they mostly did in the long-lived worker that saw the report
+			os.Setenv("GOMAXPROCS", "1")
+		}
 		r = runChoicesOnce(prop, tier, rf, trace)
+		os.Unsetenv("GOMAXPROCS")
 		if r != nil && r.Outcome == "violation" {
 			break
 		}
@@ -704,9 +722,13 @@ func runChoicesOnce(prop *Prop, tier string, rf *replayFile, trace bool) *Result
 	b, _ := json.Marshal(rf)
 	tmp.Write(b)
 	tmp.Close()
-	cmd := exec.Command(os.Args[0], "-test.run=^TestWorker$", "-test.timeout=0")
+	bin := os.Args[0]
+	if rf.Flavor == "alt" && os.Getenv("VERIF_WORKER_ALT") != "" {
+		bin = os.Getenv("VERIF_WORKER_ALT")
+	}
+	cmd := exec.Command(bin, "-test.run=^TestWorker$", "-test.timeout=0")
 	if kb := os.Getenv("VERIF_ULIMIT_KB"); kb != "" {
-		cmd = exec.Command("bash", "-c", "ulimit -v "+kb+"; exec \"$0\" \"$@\"", os.Args[0], "-test.run=^TestWorker$", "-test.timeout=0")
+		cmd = exec.Command("bash", "-c", "ulimit -v "+kb+"; exec \"$0\" \"$@\"", bin, "-test.run=^TestWorker$", "-test.timeout=0")
 	}
 	cmd.Env = append(os.Environ(), "VERIF_MODE=replay", "VERIF_PROP="+prop.ID, "VERIF_TIER="+tier, "VERIF_REPLAY="+tmp.Name())
 	if trace {
@@ -748,6 +770,9 @@ func shrinkAndSave(prop *Prop, tier string, base uint64, r *Result) (string, boo
 		Flavor: os.Getenv("VERIF_FLAVOR"), Choices: append([]uint64(nil), r.Choices...), Clause: r.Clause, Key: r.Key, OrigLen: len(r.Choices)}
 	if rf.Choices == nil {
 		rf.Choices = []uint64{}
+	}
+	if r.Alt {
+		rf.Flavor = "alt"
 	}
 	if len(r.Choices) == 0 && r.Clause == "process-died" {
 		// the worker died before reporting what it had drawn: run the case again
